@@ -300,7 +300,20 @@ fn diagnose(sh: &Shared, ki: usize, s: u64) -> String {
                 format!("(v{} seq={seq} active=m{active} sealed={sealed:?} tables={})", ver.id(), ver.table_count())
             })
             .collect();
-        v.push(format!("snapshot resolves to v{} seq={} active=m{}", chosen.0.id(), chosen.1, chosen.3));
+        v.insert(0, format!("snapshot resolves to v{} seq={} active=m{} sealed={:?}", chosen.0.id(), chosen.1, chosen.3, chosen.2));
+        // where the key's entries live: newest entry of the key in every memtable the retained history still holds
+        let mut seen = BTreeSet::new();
+        let mut mts: Vec<String> = vec![];
+        for sv in lock.verif_history().iter() {
+            for mt in verif::super_version_memtables(sv) {
+                if seen.insert(mt.id) {
+                    let e = mt.get(k, u64::MAX).map(|e| (e.key.seqno, format!("{:?}", e.key.value_type)));
+                    let below = mt.get(k, s).map(|e| e.key.seqno);
+                    mts.push(format!("m{}: newest={e:?} newest-below-S={below:?}", mt.id));
+                }
+            }
+        }
+        v.insert(1, format!("memtables: {mts:?}"));
         v
     };
     let log: Vec<String> = sh.log.read().unwrap_or_else(|e| e.into_inner())[ki].iter().rev().take(4).map(|(q, v)| format!("{q}:{}", v.as_ref().map_or("DEL".to_string(), |v| esc(&v[..v.len().min(8)])))).collect();
